@@ -113,7 +113,7 @@ func (m *MemWatch) walk(v reflect.Value, seen map[visit]bool, depth int) {
 			}
 		}
 	case reflect.Slice:
-		if v.IsNil() || v.Len() == 0 {
+		if v.IsNil() || v.Cap() == 0 {
 			return
 		}
 		et := v.Type().Elem()
@@ -127,7 +127,9 @@ func (m *MemWatch) walk(v reflect.Value, seen map[visit]bool, depth int) {
 				m.structRegions(v.Index(i))
 			}
 		} else {
-			m.addRegion(unsafe.Pointer(v.Pointer()), uintptr(v.Len())*et.Size())
+			// the whole backing array up to the capacity: a scratch buffer kept at
+			// length 0 is written beyond its length
+			m.addRegion(unsafe.Pointer(v.Pointer()), uintptr(v.Cap())*et.Size())
 		}
 		if hasPointers(et) {
 			for i := 0; i < v.Len(); i++ {
